@@ -1,12 +1,404 @@
-import Hpl.Model.Rewrite.Refactor
-import Hpl.Spec.Eval
-/-! # C10 — `refactor_reference` isolates the alias-dependent part (theorems: in progress) -/
-namespace Hpl
+import Hpl.Props.C09
+import Hpl.Lemmas.Refs
+/-!
+# C10 — `refactor_reference` isolates the alias-dependent part without changing meaning
 
-/-- **C10**: when the expression does not mention the alias the result is the expression itself paired with True -/
+Model: `Hpl/Model/Rewrite/Refactor.lean`. Spec: `truth` (errors collapsed), `containsRef`.
+As for C09, equivalence is stated as refinement: wherever both returned parts have a truth value, the input has the
+value of their conjunction (`refactor_equiv`).
+-/
+namespace Hpl
+section
+variable (opq : Opaque)
+
+/-- the pair `(f1, f2)` conjoins to `e`: wherever both parts are defined, `e` is defined with the value `f1 and f2` -/
+def Conjoins (f1 f2 e : Expr) : Prop :=
+  ∀ ρ b1 b2, truth opq ρ f1 = some b1 → truth opq ρ f2 = some b2 → truth opq ρ e = some (b1 && b2)
+
+theorem truth_trueLit (ρ : Env) : truth opq ρ trueLit = some true := rfl
+
+theorem conjoins_true_left (e : Expr) : Conjoins opq trueLit e e := by
+  intro ρ b1 b2 h1 h2
+  rw [truth_trueLit] at h1; cases h1; simpa using h2
+
+theorem conjoins_true_right (e : Expr) : Conjoins opq e trueLit e := by
+  intro ρ b1 b2 h1 h2
+  rw [truth_trueLit] at h2; cases h2; simpa using h1
+
+theorem Conjoins.of_truth_eq {f1 f2 e e' : Expr} (h : Conjoins opq f1 f2 e) (he : ∀ ρ, truth opq ρ e = truth opq ρ e') :
+    Conjoins opq f1 f2 e' := fun ρ b1 b2 h1 h2 => by rw [← he ρ]; exact h ρ b1 b2 h1 h2
+
+/-- `_split_ref_operator` on a conjunction -/
+theorem refAnd_conjoins {alias : String} {op a b f1 f2 : Expr} {t : DataType} (hop : op = .bin t Gen.AND_OPERATOR a b)
+    (h : refAnd alias op a b = .ok (f1, f2)) : Conjoins opq f1 f2 op := by
+  unfold refAnd at h
+  simp only at h
+  split at h
+  · cases h
+    intro ρ b1 b2 h1 h2
+    rw [hop, truth_and, h1, h2]; simp [bind, Option.bind, pure, Bool.and_comm]
+  · split at h
+    · cases h
+      intro ρ b1 b2 h1 h2
+      rw [hop, truth_and, h1, h2]; rfl
+    · split at h
+      · cases h; exact conjoins_true_left opq _
+      · cases h
+
+/-- the two halves of a split universal quantifier conjoin to it (in either order) -/
+theorem halves_conjoin {x : String} {d a b qa qb : Expr} (t1 t2 : DataType)
+    (ha : splitHalf x d a = .ok qa) (hb : splitHalf x d b = .ok qb) :
+    Conjoins opq qa qb (.quant t1 .all x d (.bin t2 Gen.AND_OPERATOR a b)) := by
+  intro ρ va vb hqa hqb
+  obtain ⟨es, hd, hxa⟩ := splitHalf_spec opq ha ρ va hqa
+  obtain ⟨es', hd', hxb⟩ := splitHalf_spec opq hb ρ vb hqb
+  rw [hd] at hd'; cases hd'
+  rw [truth_forall, hd]
+  simp only [Option.bind]
+  have := allO_and es (fun w => truth opq (ρ.bind x w) a) (fun w => truth opq (ρ.bind x w) b)
+  rw [allO_congr es _ _ (fun w => truth_and opq (ρ.bind x w) t2 a b), this, hxa, hxb]
+  rfl
+
+theorem Conjoins.swap {f1 f2 e : Expr} (h : Conjoins opq f1 f2 e) : Conjoins opq f2 f1 e :=
+  fun ρ b1 b2 h1 h2 => by rw [Bool.and_comm]; exact h ρ b2 b1 h2 h1
+
+theorem refQuantAnd_conjoins {alias x : String} {quant d a b f1 f2 : Expr} (t1 t2 : DataType)
+    (hq : ∀ ρ, truth opq ρ quant = truth opq ρ (.quant t1 .all x d (.bin t2 Gen.AND_OPERATOR a b)))
+    (h : refQuantAnd alias x quant d a b = .ok (f1, f2)) : Conjoins opq f1 f2 quant := by
+  unfold refQuantAnd at h
+  simp only at h
+  split at h
+  · obtain ⟨qa, hqa, h⟩ := bind_ok h
+    obtain ⟨qb, hqb, h⟩ := bind_ok h
+    cases h
+    exact (Conjoins.of_truth_eq opq (halves_conjoin opq t1 t2 hqa hqb) (fun ρ => (hq ρ).symm)).swap
+  · split at h
+    · obtain ⟨qa, hqa, h⟩ := bind_ok h
+      obtain ⟨qb, hqb, h⟩ := bind_ok h
+      cases h
+      exact Conjoins.of_truth_eq opq (halves_conjoin opq t1 t2 hqa hqb) (fun ρ => (hq ρ).symm)
+    · split at h
+      · cases h; exact conjoins_true_left opq _
+      · cases h
+
+/-- two bodies with equal truth values under every valuation give universal quantifiers with equal truth values -/
+theorem truth_forall_congr (ρ : Env) (t1 t2 : DataType) (x : String) (d p p' : Expr)
+    (h : ∀ ρ', truth opq ρ' p = truth opq ρ' p') :
+    truth opq ρ (.quant t1 .all x d p) = truth opq ρ (.quant t2 .all x d p') := by
+  rw [truth_forall, truth_forall]
+  cases domElems opq ρ d with
+  | none => rfl
+  | some es => simp only [Option.bind]; exact allO_congr es _ _ (fun v => h _)
+
+/-- `_split_ref_quantifier` -/
+theorem refQuant_all_and {alias x : String} {t t2 : DataType} {d a b f1 f2 : Expr}
+    (h : refQuantAnd alias x (.quant t .all x d (.bin t2 Gen.AND_OPERATOR a b)) d a b = .ok (f1, f2)) :
+    Conjoins opq f1 f2 (.quant t .all x d (.bin t2 Gen.AND_OPERATOR a b)) :=
+  refQuantAnd_conjoins opq t t2 (fun _ => rfl) h
+
+theorem refQuant_conjoins {alias : String} {quant f1 f2 : Expr} (h : refQuant alias quant = .ok (f1, f2)) :
+    Conjoins opq f1 f2 quant := by
+  cases quant with
+  | quant t q x d body =>
+    simp only [refQuant] at h
+    split at h
+    · cases h; exact conjoins_true_left opq _
+    · split at h
+      · cases h
+      · cases q with
+        | some => simp only at h; cases h; exact conjoins_true_left opq _
+        | all =>
+          simp only at h
+          cases body with
+          | un t2 op inner =>
+            cases inner with
+            | bin t3 op2 a b =>
+              simp only at h
+              split at h
+              · rename_i hops
+                simp only [Bool.and_eq_true] at hops
+                have h1 := beq_eq hops.1; have h2 := beq_eq hops.2; subst h1; subst h2
+                obtain ⟨na, hna, h⟩ := bind_ok h
+                obtain ⟨nb, hnb, h⟩ := bind_ok h
+                obtain ⟨e, he, h⟩ := bind_ok h
+                obtain ⟨te, a', b', rfl⟩ := mkBin_shape he
+                simp only at h
+                have hbody : ∀ ρ', truth opq ρ' (.un t2 Gen.NOT_OPERATOR (.bin t3 Gen.OR_OPERATOR a b)) =
+                    truth opq ρ' (.bin te Gen.AND_OPERATOR a' b') := by
+                  intro ρ'
+                  have e1 := truth_of_like opq (mkAnd_like opq he) ρ'
+                  rw [truth_and opq ρ' T.BOOL, truth_of_like opq (mkNot_like opq hna), truth_of_like opq (mkNot_like opq hnb),
+                    ← truth_and opq ρ' T.BOOL, truth_deMorgan opq ρ' _ _ _ t2 t3 a b] at e1
+                  exact e1.symm
+                exact refQuantAnd_conjoins opq t te (fun ρ => truth_forall_congr opq ρ t t x d _ _ hbody) h
+              · cases h; exact conjoins_true_left opq _
+            | _ => simp only at h; cases h; exact conjoins_true_left opq _
+          | bin t2 op a b =>
+            simp only at h
+            split at h
+            · rename_i hop
+              have := beq_eq hop; subst this
+              exact refQuant_all_and opq h
+            · cases h; exact conjoins_true_left opq _
+          | _ => simp only at h; cases h; exact conjoins_true_left opq _
+  | _ => simp [refQuant] at h
+
+theorem refExpr_conjoins (alias : String) : ∀ f,
+    (∀ e f1 f2, refExpr alias f e = .ok (f1, f2) → Conjoins opq f1 f2 e) ∧
+    (∀ t a f1 f2, refNeg alias f (.un t Gen.NOT_OPERATOR a) a = .ok (f1, f2) → Conjoins opq f1 f2 (.un t Gen.NOT_OPERATOR a)) := by
+  intro f
+  induction f with
+  | zero => exact ⟨fun e f1 f2 h => by simp [refExpr] at h, fun t a f1 f2 h => by simp [refNeg] at h⟩
+  | succ f ih =>
+    obtain ⟨ih1, ih2⟩ := ih
+    refine ⟨?_, ?_⟩
+    · intro e f1 f2 h
+      simp only [refExpr] at h
+      split at h
+      · cases h; exact conjoins_true_right opq _
+      · split at h
+        · cases h; exact conjoins_true_left opq _
+        · split at h
+          · cases h; exact conjoins_true_left opq _
+          · cases e with
+            | quant t q x d b => simp only at h; exact refQuant_conjoins opq h
+            | un t op a =>
+              simp only at h
+              split at h
+              · rename_i hop
+                have := beq_eq hop; subst this
+                exact ih2 t a f1 f2 h
+              · cases h
+            | bin t op a b =>
+              simp only at h
+              split at h
+              · rename_i hop
+                have := beq_eq hop; subst this
+                exact refAnd_conjoins opq rfl h
+              · cases h; exact conjoins_true_left opq _
+            | _ => simp only at h; cases h
+    · intro t a f1 f2 h
+      simp only [refNeg] at h
+      split at h
+      · cases h
+      · split at h
+        · cases h; exact conjoins_true_left opq _
+        · cases a with
+          | quant t2 q x d p =>
+            cases q with
+            | all => simp only at h; cases h; exact conjoins_true_left opq _
+            | some =>
+              -- negated existential: (~E x: p) == (A x: ~p)
+              simp only at h
+              obtain ⟨np, hnp, h⟩ := bind_ok h
+              split at h
+              · obtain ⟨q, hq, h⟩ := bind_ok h
+                refine Conjoins.of_truth_eq opq (refQuant_conjoins opq h) (fun ρ => ?_)
+                rw [truth_of_like opq (mkForall_like opq hq), ← truth_notExists opq ρ T.BOOL T.BOOL t t2]
+                exact truth_forall_congr opq ρ _ _ x d _ _ (fun ρ' => truth_of_like opq (mkNot_like opq hnp) ρ')
+              · cases h
+          | un t2 op p =>
+            simp only at h
+            split at h
+            · rename_i hop
+              have := beq_eq hop; subst this
+              exact Conjoins.of_truth_eq opq (ih1 p f1 f2 h) (fun ρ => (truth_notNot opq ρ t t2 p).symm)
+            · cases h; exact conjoins_true_left opq _
+          | bin t2 op p q =>
+            simp only at h
+            split at h
+            · rename_i hop
+              have := beq_eq hop; subst this
+              obtain ⟨nb, hnb, h⟩ := bind_ok h
+              obtain ⟨c, hc, h⟩ := bind_ok h
+              obtain ⟨tc, a', b', rfl⟩ := mkBin_shape hc
+              simp only at h
+              refine Conjoins.of_truth_eq opq (refAnd_conjoins opq rfl h) (fun ρ => ?_)
+              rw [truth_of_like opq (mkAnd_like opq hc), truth_and, truth_of_like opq (mkNot_like opq hnb), ← truth_and opq ρ T.BOOL]
+              exact truth_notImp opq ρ _ _ t t2 p q
+            · split at h
+              · rename_i hop
+                have := beq_eq hop; subst this
+                obtain ⟨na, hna, h⟩ := bind_ok h
+                obtain ⟨nb, hnb, h⟩ := bind_ok h
+                obtain ⟨c, hc, h⟩ := bind_ok h
+                obtain ⟨tc, a', b', rfl⟩ := mkBin_shape hc
+                simp only at h
+                refine Conjoins.of_truth_eq opq (refAnd_conjoins opq rfl h) (fun ρ => ?_)
+                rw [truth_of_like opq (mkAnd_like opq hc), truth_and, truth_of_like opq (mkNot_like opq hna),
+                  truth_of_like opq (mkNot_like opq hnb), ← truth_and opq ρ T.BOOL]
+                exact truth_deMorgan opq ρ _ _ _ t t2 p q
+              · cases h; exact conjoins_true_left opq _
+          | _ => simp only at h; cases h
+
+/-- **C10 (equivalence)**: wherever both returned expressions have a truth value, the input has the value `f1 and f2` -/
+theorem refactor_equiv (e f1 f2 : Expr) (alias : String) (h : refactorExpr e alias = .ok (f1, f2))
+    (ρ : Env) (b1 b2 : Bool) (h1 : truth opq ρ f1 = some b1) (h2 : truth opq ρ f2 = some b2) :
+    truth opq ρ e = some (b1 && b2) :=
+  (refExpr_conjoins opq alias _).1 e f1 f2 h ρ b1 b2 h1 h2
+
+end
+
+/-! ## the first component never mentions the alias -/
+theorem trueLit_noRef (a : String) : trueLit.containsRef a = false := rfl
+
+theorem refAnd_noRef {alias : String} {op a b f1 f2 : Expr} (h : refAnd alias op a b = .ok (f1, f2)) :
+    f1.containsRef alias = false := by
+  unfold refAnd at h
+  simp only at h
+  split at h
+  · rename_i hc; cases h; simp only [Bool.and_eq_true, Bool.not_eq_true'] at hc; exact hc.2
+  · split at h
+    · rename_i hc; cases h; simp only [Bool.and_eq_true, Bool.not_eq_true'] at hc; exact hc.2
+    · split at h
+      · cases h; rfl
+      · cases h
+
+theorem refQuantAnd_noRef {alias x : String} {quant d a b f1 f2 : Expr} (hd : d.containsRef alias = false)
+    (h : refQuantAnd alias x quant d a b = .ok (f1, f2)) : f1.containsRef alias = false := by
+  unfold refQuantAnd at h
+  simp only at h
+  split at h
+  · rename_i hc
+    obtain ⟨qa, hqa, h⟩ := bind_ok h
+    obtain ⟨qb, hqb, h⟩ := bind_ok h
+    cases h
+    simp only [Bool.and_eq_true, Bool.not_eq_true'] at hc
+    rw [splitHalf_containsRef hqb, hd, hc.2]; rfl
+  · split at h
+    · rename_i hc
+      obtain ⟨qa, hqa, h⟩ := bind_ok h
+      obtain ⟨qb, hqb, h⟩ := bind_ok h
+      cases h
+      simp only [Bool.and_eq_true, Bool.not_eq_true'] at hc
+      rw [splitHalf_containsRef hqa, hd, hc.2]; rfl
+    · split at h
+      · cases h; rfl
+      · cases h
+
+theorem refQuant_noRef {alias : String} {quant f1 f2 : Expr} (h : refQuant alias quant = .ok (f1, f2)) :
+    f1.containsRef alias = false := by
+  cases quant with
+  | quant t q x d body =>
+    simp only [refQuant] at h
+    split at h
+    · cases h; rfl
+    · rename_i hd
+      simp only [Bool.not_eq_true] at hd
+      split at h
+      · cases h
+      · cases q with
+        | some => simp only at h; cases h; rfl
+        | all =>
+          simp only at h
+          cases body with
+          | un t2 op inner =>
+            cases inner with
+            | bin t3 op2 a b =>
+              simp only at h
+              split at h
+              · obtain ⟨na, hna, h⟩ := bind_ok h
+                obtain ⟨nb, hnb, h⟩ := bind_ok h
+                obtain ⟨e, he, h⟩ := bind_ok h
+                obtain ⟨te, a', b', rfl⟩ := mkBin_shape he
+                simp only at h
+                exact refQuantAnd_noRef hd h
+              · cases h; rfl
+            | _ => simp only at h; cases h; rfl
+          | bin t2 op a b =>
+            simp only at h
+            split at h
+            · exact refQuantAnd_noRef hd h
+            · cases h; rfl
+          | _ => simp only at h; cases h; rfl
+  | _ => simp [refQuant] at h
+
+theorem refExpr_noRef (alias : String) : ∀ f,
+    (∀ e f1 f2, refExpr alias f e = .ok (f1, f2) → f1.containsRef alias = false) ∧
+    (∀ neg a f1 f2, refNeg alias f neg a = .ok (f1, f2) → f1.containsRef alias = false) := by
+  intro f
+  induction f with
+  | zero => exact ⟨fun e f1 f2 h => by simp [refExpr] at h, fun neg a f1 f2 h => by simp [refNeg] at h⟩
+  | succ f ih =>
+    obtain ⟨ih1, ih2⟩ := ih
+    refine ⟨?_, ?_⟩
+    · intro e f1 f2 h
+      simp only [refExpr] at h
+      split at h
+      · rename_i hc; cases h; simpa using hc
+      · split at h
+        · cases h; rfl
+        · split at h
+          · cases h; rfl
+          · cases e with
+            | quant t q x d b => simp only at h; exact refQuant_noRef h
+            | un t op a =>
+              simp only at h
+              split at h
+              · exact ih2 _ a f1 f2 h
+              · cases h
+            | bin t op a b =>
+              simp only at h
+              split at h
+              · exact refAnd_noRef h
+              · cases h; rfl
+            | _ => simp only at h; cases h
+    · intro neg a f1 f2 h
+      simp only [refNeg] at h
+      split at h
+      · cases h
+      · split at h
+        · cases h; rfl
+        · cases a with
+          | quant t2 q x d p =>
+            cases q with
+            | all => simp only at h; cases h; rfl
+            | some =>
+              simp only at h
+              obtain ⟨np, hnp, h⟩ := bind_ok h
+              split at h
+              · obtain ⟨q, hq, h⟩ := bind_ok h
+                exact refQuant_noRef h
+              · cases h
+          | un t2 op p =>
+            simp only at h
+            split at h
+            · exact ih1 p f1 f2 h
+            · cases h; rfl
+          | bin t2 op p q =>
+            simp only at h
+            split at h
+            · obtain ⟨nb, hnb, h⟩ := bind_ok h
+              obtain ⟨c, hc, h⟩ := bind_ok h
+              obtain ⟨tc, a', b', rfl⟩ := mkBin_shape hc
+              simp only at h
+              exact refAnd_noRef h
+            · split at h
+              · obtain ⟨na, hna, h⟩ := bind_ok h
+                obtain ⟨nb, hnb, h⟩ := bind_ok h
+                obtain ⟨c, hc, h⟩ := bind_ok h
+                obtain ⟨tc, a', b', rfl⟩ := mkBin_shape hc
+                simp only at h
+                exact refAnd_noRef h
+              · cases h; rfl
+          | _ => simp only at h; cases h
+
+/-- **C10 (isolation)**: the first returned expression contains no reference to the alias -/
+theorem refactor_noRef (e f1 f2 : Expr) (alias : String) (h : refactorExpr e alias = .ok (f1, f2)) :
+    f1.containsRef alias = false :=
+  (refExpr_noRef alias _).1 e f1 f2 h
+
+/-- **C10 (unchanged)**: when the expression does not mention the alias the result is the expression itself paired with True -/
 theorem refactor_unchanged (e : Expr) (alias : String) (h : e.containsRef alias = false) :
     refactorExpr e alias = .ok (e, trueLit) := by
   unfold refactorExpr
   simp [refExpr, h]
+
+/-- non-vacuity: `forall i in xs: (@i > 0 and @A.b)` with alias A splits into `len(xs) = 0 or @A.b` and the quantifier -/
+def exC10 : Expr :=
+  .quant 1 .all "i" (.field 8 (.this 64) "xs")
+    (.bin 1 "and" (.bin 1 ">" (.var 2 "i") (.lit 2 "0" (.int 0))) (.field 1 (.var 64 "A") "b"))
+example : ∃ f1 f2, refactorExpr exC10 "A" = .ok (f1, f2) ∧ f1.containsRef "A" = false ∧ f2.containsRef "A" = true := by
+  refine ⟨_, _, by rfl, by rfl, by rfl⟩
 
 end Hpl
